@@ -147,8 +147,13 @@ def shrink_violation(chk, case, viol, first_result=None):
     from sim import shrink
 
     target = vclass(viol)
+    # minimisation is bounded in executions (SHRINK_BUDGET) and in wall time: a large world (a thousand-bar movement)
+    # takes seconds per execution, and a replay file that is less small is better than none
+    t_end = time.time() + float(os.environ.get("VERIF_SHRINK_WALL", getattr(chk, "SHRINK_WALL", 150)))
 
     def still_fails(c):
+        if time.time() > t_end:
+            return False
         r = chk.execute(copy.deepcopy(c))  # execute must not see changes an earlier execution made to the case
         return any(vclass(v) == target for v in r.violations)
 
